@@ -81,7 +81,7 @@ C14_URING = [
 CHECKS = {
     "C14": {"harnesses": C14_EPOLL + C14_URING, "deadline": {"quick": 900, "thorough": 4000}},
     "C20": {"harnesses": C20_HARNESSES, "configs": {"quick": ["c17rel", "c20dbg", "c17dbgv", "c20relv"], "thorough": ALL_CONFIGS},
-            "header_matrix": True, "deadline": {"quick": 600, "thorough": 3000}},
+            "header_matrix": True, "deadline": {"quick": 600, "thorough": 4500}},
     "C19": {"harnesses": C19_HARNESSES},
     "C10": {"harnesses": CORO + CORO_RACE},
     "C11": {
